@@ -42,7 +42,7 @@ def sh(cmd, cwd=None, input=None, timeout=None, env=None):
                 break
             except OSError as ex:
                 # ETXTBSY / ENOENT for a moment while another check relinks the binary under the build lock: wait, do not alarm
-                if ex.errno not in (errno.ETXTBSY, errno.ENOENT) or attempt == 39:
+                if ex.errno not in (errno.ETXTBSY, errno.ENOENT, errno.EACCES) or attempt == 39:
                     raise
                 time.sleep(1.5)
         return r.returncode, r.stdout, r.stderr
